@@ -27,7 +27,8 @@ def get_mypyfile_definitions(node: MypyFile) -> list:
 
 
 def get_argument_kind(arg: mp_nodes.Argument) -> ParameterAssignment:
-    if arg.variable.is_self or arg.variable.is_cls:
+    # The receiver is a positional parameter. In "def m(*args)" the instance is merely the first element of args
+    if (arg.variable.is_self or arg.variable.is_cls) and arg.kind in {ArgKind.ARG_POS, ArgKind.ARG_OPT}:
         return ParameterAssignment.IMPLICIT
     elif arg.kind in {ArgKind.ARG_POS, ArgKind.ARG_OPT} and arg.pos_only:
         return ParameterAssignment.POSITION_ONLY
